@@ -21,6 +21,9 @@ MAP = [  # (commit, property, hunt dir, note)
     ("1962b55", "C02", "../hunt2/C02/2", "demo aborts the process (SIGABRT) with the patch: run with -- --test-threads 1"),
     ("9de8449", "C15", "../hunt2/C15/1", ""), ("28a8762", "C15", "../hunt2/C15/2", ""), ("cca14e6", "C14", "../hunt2/C14/3", ""),
     ("f624311", "C08", "../hunt2/C08/2", ""), ("07c787b", "C08", "../hunt2/C08/1", ""),
+    ("dddade8", "C15", "../hunt3/C15/1", ""), ("363eb96", "C15", "../hunt3/C15/2", ""), ("6e74526", "C13", "../hunt3/C13/4", ""),
+    ("67cc682", "C12", "../hunt3/C12/1", "demo needs `--features jsonld` in crate sophia"),
+    ("1922a30", "C14", "../hunt3/C14/1", ""),
 ]
 
 def sh(cmd, cwd=WT):
